@@ -13,7 +13,8 @@ a change that breaks the property, still compiles, passes the pinned suite and n
 specific to manifest, with a demonstration. Round 1: one agent per property (20). Round 2: 13 more
 agents on the properties with the largest behaviour space, each told which change had already been
 used for its property. Round 3: 12 more (C01 C02 C06 C07 C11 C12 C13 C15 C16 C17 C19 C20), each told
-the titles of the changes already used. Every returned change was re-confirmed in a new scratch worktree by
+the titles of the changes already used. Round 4: 8 more (C03 C04 C05 C08 C09 C10 C14 C18). Every
+returned change was re-confirmed in a new scratch worktree by
 `tools/confirm_seed.sh` / `confirm_seed_unit.sh` (patch applies, 33+9 tests pass with it, the
 demonstration fails with it and passes without it; for the two memory-ordering changes the
 demonstration is a Miri run) and then the property's quick check was run against it in /repo
@@ -27,8 +28,9 @@ the same change independently (C02/C03, C06/C07, C08/C11).
 for n,p,needs,c in rows:
     new+=f"| {n} | {p} | {needs.replace('|','/')} | {c} |\\n".replace('\\n','\n')
 new+='''
-All 45 are caught now, on every run, by the quick tier of the property they break. **Eighteen were
-missed when first confirmed** (eleven of rounds 1-2, seven of round 3) and led to strengthening:
+All 53 are caught now, on every run, by the quick tier of the property they break. **Twenty were
+missed when first confirmed** (eleven of rounds 1-2, seven of round 3, two of round 4) and led to
+strengthening:
 
 * *C01-no-fold-after-normalize* (only U+0130 is affected) and *R2-C14-std-is-uppercase* (final
   sigma, long s, micro sign, title-case digraphs): hand-picked alphabets cannot anticipate which
@@ -85,6 +87,15 @@ missed when first confirmed** (eleven of rounds 1-2, seven of round 3) and led t
   path (> 20 elements); lists of every length 0..=96, 200 and 1000 with interleaved ties.
 * *R3-C17-owned-slice-u32-excluded-start*: arms reachable only through `(Bound, Bound)` tuples;
   every (start kind x end kind) pair is enumerated for all four slice methods.
+* *R4-C04-tie-prefers-consecutive*: the smallest failing input has a 4-character needle and 7
+  columns over {two letters, a camel hump, a delimiter}; the quick tier stopped at needles of 3.
+  Deep-and-narrow domain **camel4** added (quick: h <= 7, n <= 4; thorough: h <= 8 and a variant
+  with a digit).
+* *R4-C18-join-cancel-and*: only nodes with a half above the sequential threshold read the flag,
+  so with an even first split of <= 4100 elements neither half ever does and the two results of
+  the join are never (true, false). Shapes **low_pivot / high_pivot** (nine pivot candidates
+  planted near one end) give a first split of ~500 : ~4700 in either order; every comparator-call
+  index is still enumerated as cancel moment.
 * Confirming *C13-no-retry-for-zero-timeout* exposed a harness bug (a parked thread of a
   deadlocked execution kept a global lock; the next execution stalled and the run ended as a
   machinery failure instead of a verdict) - fixed by a pool of reference matchers.
